@@ -139,6 +139,49 @@ def h_unit_explain(op, flag, ivs, N, a=0, b=0):
     return body
 
 
+def h_unit_explain2(op, flag, ivs, N):
+    """the same inductive step for the Boolean connectives (two operands), prev/next and rise/fall"""
+    def body(env):
+        A = env.A
+        import rtamt.explanation.ltl.discrete_time.explanations as L
+        c = [env.real('c%d' % i) for i in range(N)]
+        e = [env.real('e%d' % i) for i in range(N)]
+        c2 = [env.real('d%d' % i) for i in range(N)]
+        e2 = [env.real('f%d' % i) for i in range(N)]
+        T1, T2, U1, U2 = ([A.le(0, x) for x in s_] for s_ in (c, e, c2, e2))
+
+        def verdict(p, q, t):
+            if op == 'and': return A.And(p[t], q[t])
+            if op == 'or': return A.Or(p[t], q[t])
+            if op == 'implies': return A.Or(A.Not(p[t]), q[t])
+            if op == 'prev': return p[t - 1] if t > 0 else A.bool(flag)          # weak/strong: whatever the verdict says at 0
+            if op == 'next': return p[t + 1] if t + 1 < N else A.bool(flag)
+            if op == 'rise': return A.And(p[t], A.Not(p[t - 1])) if t > 0 else p[t]
+            if op == 'fall': return A.And(A.Not(p[t]), p[t - 1]) if t > 0 else A.Not(p[t])
+            raise KeyError(op)
+        blamed = sorted({t for lo, hi in ivs for t in range(lo, hi + 1)})
+        for t in blamed:
+            v = verdict(T1, T2, t)
+            env.assume(v if flag else A.Not(v))
+        iv = [list(i) for i in ivs]
+        if op in ('and', 'or', 'implies'):
+            J1, J2 = getattr(L, 'explain_%s_%s' % ('sat' if flag else 'unsat', op))(c, e, iv)
+        elif op in ('prev', 'next'):
+            J1, J2 = getattr(L, 'explain_%s_%s' % ('sat' if flag else 'unsat', op))(c, iv), []
+        else:
+            J1, J2 = getattr(L, 'explain_%s' % op)(c, iv), []
+        pos = lambda J: sorted({j for lo, hi in J for j in range(max(0, int(lo)), min(N - 1, int(hi)) + 1)})
+        same = lambda p, q, j: A.Or(A.And(p[j], q[j]), A.And(A.Not(p[j]), A.Not(q[j])))
+        agree = A.And(*([same(T1, U1, j) for j in pos(J1)] + [same(T2, U2, j) for j in pos(J2)]))
+        env.observe('reported', [len(pos(J1)), len(pos(J2))])
+        res = []
+        for t in blamed:
+            v2 = verdict(U1, U2, t)
+            res.append(('unit-sufficient@%d' % t, A.Or(A.Not(agree), v2 if flag else A.Not(v2))))
+        return res
+    return body
+
+
 def interval_sets(N):
     """all sets of one or two disjoint, non-adjacent intervals inside [0, N-1]"""
     one = [(lo, hi) for lo in range(N) for hi in range(lo, N)]
@@ -199,6 +242,13 @@ def obligations(tier, rng):
                         continue                  # an empty window cannot have that verdict: nothing to explain
                     out.append(ob('C20', 'unit_explain', 'unit/%s_%s%s/I=%s' % ('sat' if flag else 'unsat', op, '[%d,%d]' % (a, b) if timed else '', ivs),
                                   op=op, flag=flag, ivs=[list(i) for i in ivs], N=Nu, a=a, b=b, validate=0))
+    for op in ('and', 'or', 'implies', 'prev', 'next', 'rise', 'fall'):
+        for flag in (True, False):
+            for ivs in interval_sets(Nu):
+                if op in ('rise', 'fall') and flag and any(hi > lo for lo, hi in ivs):
+                    continue              # an edge cannot hold at two consecutive samples: nothing to explain
+                out.append(ob('C20', 'unit_explain2', 'unit2/%s_%s/I=%s' % ('sat' if flag else 'unsat', op, ivs), op=op, flag=flag,
+                              ivs=[list(i) for i in ivs], N=Nu, validate=0))
     # bounds that are not plain sample counts (explicit units, sampling period other than the default unit)
     GU = ('geq', X, ('const', 0.0))
     for f, txt, period in [(('always_t', GU, 0, 4), 'always[0:2s]((x) >= (0.0))', [500, 'ms', 0.1]), (('eventually_t', GU, 2, 4), 'eventually[1:2]((x) >= (0.0))', [500, 'ms', 0.1]),
